@@ -44,20 +44,13 @@ Theorem C14_search_root_with_allocation : forall hn start limit a r,
 Proof. exact search_root_with_allocation. Qed.
 Print Assumptions C14_search_root_with_allocation.
 
-(* what the code records as AllocatedHyperNode (allocate.go:525,645; recorder.go:66,79):
-   LCA(previous allocation, the HyperNode DOMAIN chosen by the gradient) — the lowest common
-   ancestor-or-self of those two.  It holds the placements (law 109) but is in general above
-   the LCA of the nodes actually bound: the property text's "recorded = LCA of the placements"
-   is refuted below (finding D11) *)
-Theorem C14_recorded_is_lca_of_domains : forall hn p c r,
-  new_allocated hn (Some p) c = Some r ->
-  match r with
-  | Some x => anc (parent_of hn) p x /\ anc (parent_of hn) c x /\
-              forall y, anc (parent_of hn) p y -> anc (parent_of hn) c y -> anc (parent_of hn) x y
-  | None => forall y, anc (parent_of hn) p y -> anc (parent_of hn) c y -> False
-  end.
-Proof. exact recorded_is_lca_of_domains. Qed.
-Print Assumptions C14_recorded_is_lca_of_domains.
+(* The code records as AllocatedHyperNode LCA(previous allocation, the HyperNode DOMAIN chosen by
+   the gradient) (allocate.go:525,645; recorder.go:66,79); that LCA is characterised by
+   C14_lca_correct.  The record is checked on real traces only (law 109: holds every placement,
+   tier <= limit).  It is in general ABOVE the LCA of the nodes actually bound: the property
+   text's "recorded = LCA of the placements" is false for the code (finding D11, law 113); the
+   witness below shows a tier-2 domain recorded while a tier-1 HyperNode holds node n1 *)
+
 
 Theorem C14_recorded_is_lca_of_placements_refuted :
   let s := scratch (mkEnv [] []) [mkObj 1 1 [MNode 1]; mkObj 2 1 [MNode 2]; mkObj 3 2 [MHyper 1; MHyper 2]]%positive in
@@ -149,6 +142,14 @@ Theorem C14_adjust_sub_valid_name : forall table job subs role n,
   In (role, Some n) (snd (adjust false table job subs)).
 Proof. exact adjust_sub_valid_name. Qed.
 Print Assumptions C14_adjust_sub_valid_name.
+
+(* finding D13: a hard limit given by a tier name that no HyperNode carries is NOT translated —
+   the spec keeps no numeric limit, the job is scheduled without constraint *)
+Theorem C14_adjust_unknown_name_unconstrained :
+  fst (adjust false [1; 2] (Some (TName 0)) []) = None /\
+  fst (adjust false [1; 2] (Some (TName 2)) []) = Some 2.
+Proof. exact adjust_unknown_name_unconstrained. Qed.
+Print Assumptions C14_adjust_unknown_name_unconstrained.
 
 Theorem C14_adjust_skip_refuted :
   let table := [1; 2] in
@@ -277,18 +278,14 @@ Proof. exact d2a_label_leaf_stale_refuted. Qed.
 Print Assumptions C14_d2a_label_leaf_stale_refuted.
 
 (* --- bad membership => not ready, where it holds --- *)
-(* (i) HISTORY INVARIANT, no hypothesis on the objects or the events: a view that reports Ready
-   has no failed rebuild outstanding; so from the failing call on (C14_upd_error_not_ready) the
-   view stays not ready until every rebuild that failed on a cycle / double claim has succeeded
-   again or its HyperNode is gone *)
-Theorem C14_ready_implies_no_failed_rebuild : forall evs e,
-  let s := snd (run e evs) in s_ready s = true -> s_failed s = [].
-Proof. exact ready_implies_no_failed_rebuild. Qed.
-Print Assumptions C14_ready_implies_no_failed_rebuild.
+(* (the invariant "Ready implies that the private set failedRebuilds is empty", proved for all
+   histories in Audit.v ready_implies_no_failed_rebuild, relates two internal fields and is not
+   counted as a property theorem) *)
 
-(* (ii) a second claim of an EXISTING member is refused: on the view of any forest P, a new
-   object listing a HyperNode c that already has a parent p makes UpdateHyperNode fail and
-   the view not ready (any tiers; the members listed before c are free) *)
+
+(* a second claim of an EXISTING member is refused: on the view of any forest P, an object with a
+   NEW name whose members before c are exact-match, present and unclaimed, and which then lists a
+   HyperNode c that already has a parent p, makes UpdateHyperNode fail and the view not ready *)
 Theorem C14_second_claim_not_ready : forall e s P nm t ms1 c rest p,
   Rep s P ->
   find_obj P nm = None ->
@@ -352,6 +349,33 @@ Example C14_leaf_first_nonvacuous :
   leaf_first [mkObj 1 1 [MNode 1; MNode 2]; mkObj 2 1 [MNode 3]; mkObj 5 1 [];
               mkObj 3 2 [MHyper 1; MNode 4; MHyper 2]; mkObj 4 3 [MHyper 3]; mkObj 6 2 [MHyper 5]]%positive.
 Proof. exact leaf_first_example. Qed.
+
+(* non-vacuity of the composed placement theorems, of the second-claim theorem and of the
+   recovery theorems, on the six-object forest of C14_leaf_first_nonvacuous *)
+Example C14_compose_nonvacuous :
+  let P := [mkObj 1 1 [MNode 1; MNode 2]; mkObj 2 1 [MNode 3]; mkObj 5 1 [];
+            mkObj 3 2 [MHyper 1; MNode 4; MHyper 2]; mkObj 4 3 [MHyper 3]; mkObj 6 2 [MHyper 5]]%positive in
+  let s := scratch (mkEnv [] []) P in
+  find_obj P top_name = None /\
+  gradient (add_top s) 3%positive 1 None = GOk [(1%positive, 1); (2%positive, 1)] /\
+  gradient (add_top s) top_name 2 (Some 1%positive) = GOk [(3%positive, 2); (1%positive, 1); (2%positive, 1)] /\
+  real_get s 3 = [1; 2; 3; 4]%positive.
+Proof. vm_compute. repeat split; reflexivity. Qed.
+
+Example C14_second_claim_nonvacuous :
+  let P := [mkObj 1 1 [MNode 1]; mkObj 5 1 []; mkObj 6 2 [MHyper 5]]%positive in
+  let s := scratch (mkEnv [] []) P in
+  find_obj P 7%positive = None /\ spec_parent P 5%positive = Some 6%positive /\ spec_parent P 1%positive = None /\
+  snd (upd (mkEnv [] []) s (mkObj 7 3 [MNode 9; MHyper 1; MHyper 5])%positive) = true /\
+  s_ready (fst (upd (mkEnv [] []) s (mkObj 7 3 [MNode 9; MHyper 1; MHyper 5])%positive)) = false.
+Proof. vm_compute. repeat split; reflexivity. Qed.
+
+Example C14_recover_nonvacuous :
+  let '(hn, real) := trace_session 3 [(1%positive, [1; 1]); (1%positive, [1])] in
+  recover_sub hn real [1; 2]%positive = Some 1%positive /\
+  recover_sub hn real [1; 3]%positive = Some 3%positive /\
+  recover_job hn [Some 1%positive; Some 2%positive] = Some (Some 3%positive).
+Proof. vm_compute. repeat split; reflexivity. Qed.
 
 Example C14_gradient_nonvacuous :
   let s := snd (run (mkEnv [] []) [EUpd (mkObj 1 1 [MNode 1]); EUpd (mkObj 2 1 [MNode 2]);
